@@ -34,13 +34,17 @@ fn main() {
     }
     let full = stratum == 0 && elems.len() == 4 && args.shards == 1;
     ev.add("instantiations", insts.len() as u64);
-    ev.add("query_type_instantiations", insts.len() as u64 * 5);
+    let crossed = insts.iter().filter(|n| n.contains(" query ") || n.contains(" ys ")).count() as u64;
+    ev.add("crossed_storage_instantiations", crossed);
+    ev.add("query_type_instantiations", (insts.len() as u64 - crossed) * 5 + crossed * 2);
     ev.finish(
         &args,
         "every instantiation: {Interp1D/Linear, Interp2D/Bilinear} x {f64, f32, i32, i64} x data \
          dimension type {Ix1..Ix6, IxDyn} (2-D: Ix2..Ix6, IxDyn) x storage {owned, view, shared} (data, \
          axes and query together), plus CubicSpline for f64/f32; each queried with query dimension \
-         types Ix0, Ix1, Ix2, Ix3 and IxDyn(rank 1) and per element. Every instantiation is non-trivial \
+         types Ix0, Ix1, Ix2, Ix3 and IxDyn(rank 1) and per element; plus crossed storage kinds: all \
+         six ordered pairs of different kinds for (data, query) in 1-D and (xs, ys) in 2-D, every data \
+         dimension type and element type (Ix1 fast path vs Ix2 general path vs per element). Every instantiation is non-trivial \
          (it exercises the TypeId test with its own type parameters); distinct = distinct instantiations.",
         J::obj()
             .set("exhaustive_done", full)
